@@ -3,6 +3,7 @@ package main
 import (
 	sdkmath "cosmossdk.io/math"
 	sdk "github.com/cosmos/cosmos-sdk/types"
+	vestingtypes "github.com/cosmos/cosmos-sdk/x/auth/vesting/types"
 	banktypes "github.com/cosmos/cosmos-sdk/x/bank/types"
 
 	ammtypes "github.com/elys-network/elys/x/amm/types"
@@ -246,6 +247,12 @@ func (a *DonorAgent) Step(s *Sim) {
 		amt := s.uniq(logUniform(r, 1, 5e8))
 		s.SendTx(u, "donor/pool", &banktypes.MsgSend{FromAddress: u.Addr.String(), ToAddress: p.Address, Amount: sdk.NewCoins(sdk.NewCoin(d, amt))})
 		s.Stats.Probe("donation_to_pool_address")
+	case r.Float64() < 0.15:
+		// the burn address receives coins it can never spend: a permanently locked (vesting) account
+		// created there by an ordinary transaction, if no account exists at the address yet
+		zero := sdk.AccAddress(make([]byte, 20)).String()
+		s.SendTx(u, "donor/lock_at_burn_address", &vestingtypes.MsgCreatePermanentLockedAccount{FromAddress: u.Addr.String(), ToAddress: zero, Amount: sdk.NewCoins(sdk.NewCoin(DenomELYS, logUniform(r, 1, 1e6)))})
+		s.Stats.Probe("locked_account_at_burn_address_submitted")
 	default:
 		zero := sdk.AccAddress(make([]byte, 20)).String()
 		d := pick(r, []string{DenomELYS, DenomELYS, DenomUSDC, DenomATOM})
